@@ -83,6 +83,11 @@ CHECKS = {
             'Hypothesis generates base URLs (schemes, name/IPv4/IPv6 hosts, userinfo, ports, dot-free paths with empty segments, trailing slash or empty path, query, fragment) and chains of 1-3 references (empty, fragment-only, query-only, path-absolute, path-relative over ".", "..", empty and named segments, absolute URLs). base.navigate(ref).to_text() must equal the result of the RFC pseudo-code (transform references, merge, remove_dot_segments written over strings) applied to base.to_text(), modulo "" == "/" under an authority; the result has no dot segments and is rooted, the base is unchanged (text and ==), navigate(URL(ref)) == navigate(ref), chains equal step-by-step resolution, normalize() is idempotent on arbitrary path_parts. Every run additionally replays the 39 in-domain examples of RFC 3986 5.4.1/5.4.2 with the RFC\'s expected strings (which also validates the reference) and enumerates all 24 576 reference paths of <=5 segments over {".", "..", "", "x"} (relative and absolute) against 12 base shapes.',
             'Trusts the reference resolver (itself checked against the RFC examples on every run); references with an authority or with a scheme but no host are out of scope; alphabets are rendering-invariant.',
             'DESIGN.md section 2, C07'),
+    'C16': ('exploration',
+            'grammar-based generation of traceback texts (round trip against the generated fields and the text itself) and generated programs imported from a temporary module (differential against traceback.extract_tb / traceback.format_exception of the same exception)',
+            '(a) texts in the interpreter\'s format with 0-8 frames, per-frame optional source and position-marker lines, awkward paths (spaces, non-ASCII, <stdin>, a path containing \'", line 5, in b\'), function names like <module>/<lambda>/Class.method, type-only, one-line and multi-line messages containing ": ", quotes, \'File "\' and interior empty lines; from_string must recover every field, to_string must reproduce the text (marker lines removed, as documented), from_string(to_string()) is a fixed point, bytes input parses identically. (b) call chains of depth 1-12 mixing direct calls, lambdas, comprehensions, generator expressions, methods, multi-statement and multi-line calls, recursion, eval/exec frames, re-raise / finally / with blocks (so frame.f_lineno differs from tb_lineno), raising builtin, module-level, relabelled-module and function-local exception classes; TracebackInfo/ExceptionInfo frames must equal traceback.extract_tb, exc_msg == str(value), get_formatted() equals the interpreter\'s text without marker lines, to_dict is consistent, and ParsedException parses boltons\' own output back to the same frames. Known finding: >3 identical consecutive frames are collapsed by the interpreter only.',
+            'Trusts the traceback module of the running interpreter (3.12); \\n-only line separation; SyntaxError, chaining, notes and groups excluded.',
+            'DESIGN.md section 2, C16'),
 }
 
 NOT_YET = 'check not built yet in this revision of /verif (work in progress; see DESIGN.md section 8)'
